@@ -181,7 +181,8 @@ where
                 // it's not => check capicity
                 if size < self.k {
                     // space left => add to top k
-                    debug_assert!(count == 1);
+                    // (`count` may exceed 1 here when the sketch cells of this first-seen element
+                    // collide with earlier ones)
                     v.insert(1);
                     self.tree.insert(TreeEntry {
                         obj: Rc::clone(&rc),
